@@ -37,7 +37,9 @@ func mSqrt(matrix Matrix) (Matrix, error) {
   n, _ := matrix.Dims()
   c  := NewScalar(matrix.ElementType(), 0.5)
   t0 := NewScalar(matrix.ElementType(), 0.0)
-  Y0 := matrix
+  // the iteration swaps Y0 and Y1 and writes to both: work on a copy
+  // of the caller's matrix
+  Y0 := matrix.CloneMatrix()
   Z0 := NullDenseMatrix(matrix.ElementType(), n, n)
   Z0.SetIdentity()
   t1, err := matrixInverse.Run(Z0)
